@@ -401,7 +401,7 @@ def E2() -> bool:
 
 
 def _e1_shards(tier):
-    base = {"H": 4, "bulk": 1} if tier == "quick" else {"H": 6, "bulk": 1}
+    base = {"H": 4, "bulk": 1} if tier == "quick" else {"H": 5, "bulk": 1}
     out = []
     for p in enumerate_prefixes(body_E1, "X", {}, base, 2 if tier == "quick" else 3):
         if p and p[0] == 6:  # bulk histories are expensive per path: split them further
@@ -417,7 +417,7 @@ OBLIGATIONS = [
        assumptions=["list append/pop(0)/pop()/len modelled as an integer-indexed array window [lo, hi)"]),
     Ob("E1", E1, body_E1, "X", desc="histories of log / add_destinations(1 or 2) / remove_destination / add_global_fields / bulk log (1001-1003 messages, as first operation) against a reference model", functions=["Destinations.add", "Destinations.remove", "Destinations.send", "Destinations.addGlobalFields", "BufferingDestination.__call__", "eliot.add_destinations", "eliot.remove_destination", "eliot.add_global_fields"],
        shards=_e1_shards, twin=[{"H": 4, "bulk": 1, "twin_label": "buffer-and-remove"}], timeout={"quick": 100, "thorough": 1500}, path_timeout=120,
-       bounds={"quick": "histories of <= 4 operations over 3 destinations, 2 global keys", "thorough": "<= 6 operations"}),
+       bounds={"quick": "histories of <= 4 operations over 3 destinations, 2 global keys", "thorough": "<= 5 operations"}),
     Ob("E2", E2, body_E2, "X", desc="a logging thread against the thread performing the first add_destinations, line granularity in eliot/_output.py", functions=["Destinations.add", "Destinations.send", "Logger.write", "BufferingDestination.__call__"],
        shards={"quick": [{"buffered": 1, "logged": 1, "P": 2}, {"buffered": 1, "logged": 2, "P": 1}], "thorough": [{"buffered": 1, "logged": 2, "P": 2}, {"buffered": 2, "logged": 1, "P": 3}]}, twin=[{"buffered": 1, "logged": 1, "P": 2, "twin_label": "raced"}], timeout={"quick": 100, "thorough": 900},
        bounds={"quick": "1 buffered + 1 concurrently logged message with <= 2 preemptions; 1 + 2 with <= 1", "thorough": "1 + 2 with <= 2 preemptions; 2 + 1 with <= 3"}),
